@@ -30,6 +30,7 @@ package cache
 //@ func parseExports
 //@ prop C20
 //@ readonly
+//@ loop 0 invariant (ret == nil || fresh(ret)) && unchanged("A!exportPkg")
 //@ ensures result1 == nil || result1 == errInvalidFormat
 //@ ensures imp(result1 != nil, result0 == nil)
 
